@@ -721,6 +721,61 @@ def unify(expected, actual, local_names, binds=None):
     return binds
 
 
+class _CanonIf(ast.NodeTransformer):
+    """if/else and conditional expressions in positive normal form: the test
+    carries no leading 'not' / 'is not' / '!=' / 'not in' (branches swapped
+    accordingly), so a statement and its branch-inverted twin read alike"""
+
+    @staticmethod
+    def _pos(test):
+        flip = False
+        while True:
+            if isinstance(test, ast.UnaryOp) and isinstance(test.op, ast.Not):
+                test = test.operand
+                flip = not flip
+                continue
+            if isinstance(test, ast.Compare) and len(test.ops) == 1 and \
+                    type(test.ops[0]) in (ast.IsNot, ast.NotEq, ast.NotIn):
+                pos = {ast.IsNot: ast.Is, ast.NotEq: ast.Eq,
+                       ast.NotIn: ast.In}[type(test.ops[0])]
+                test = ast.Compare(test.left, [pos()], test.comparators)
+                flip = not flip
+                continue
+            return test, flip
+
+    def visit_If(self, node):
+        self.generic_visit(node)
+        if node.orelse and not (len(node.orelse) == 1 and
+                                isinstance(node.orelse[0], ast.If)):
+            test, flip = self._pos(node.test)
+            if flip:
+                node.test = test
+                node.body, node.orelse = node.orelse, node.body
+        return node
+
+    def visit_IfExp(self, node):
+        self.generic_visit(node)
+        test, flip = self._pos(node.test)
+        if flip:
+            node.test = test
+            node.body, node.orelse = node.orelse, node.body
+        return node
+
+
+def canon_stmt(st):
+    """clone of a statement / expression in if-normal form (no parent
+    links)"""
+    try:
+        if isinstance(st, ast.expr):
+            tree = ast.parse(ast.unparse(st), mode="eval").body
+            return ast.fix_missing_locations(_CanonIf().visit(tree))
+        tree = ast.parse(ast.unparse(st))
+        tree = ast.fix_missing_locations(_CanonIf().visit(tree))
+        return tree.body[0] if tree.body else st
+    except (SyntaxError, ValueError, RecursionError):
+        return st
+
+
 class _LocalNames(set):
     fixed = frozenset()
 
@@ -737,6 +792,7 @@ class StmtText(str):
         inst = str.__new__(cls, " ".join(src(s) for s in stmts))
         inst.node = node
         inst.stmts = stmts
+        inst._canon = None
         inst.locals = _LocalNames(_locals_of(node))
         # names the function uses that are *not* its locals (parameters,
         # globals, builtins, self): an expected text naming one of them
@@ -793,6 +849,16 @@ class StmtText(str):
                     continue
                 binds = {}
                 ok = True
+                if isinstance(want, ast.If):
+                    # the branch on which the quoted condition holds exists
+                    # either way round: 'if c: A else: B' / 'if not c: B
+                    # else: A'
+                    wt, wf = _CanonIf._pos(want.test)
+                    st_, sf = _CanonIf._pos(s.test)
+                    if unify(wt, st_, self.locals, binds) is not None and (
+                            wf == sf or s.orelse):
+                        return True
+                    continue
                 for f in fields:
                     a, b = getattr(want, f), getattr(s, f)
                     if isinstance(a, list):
@@ -808,6 +874,33 @@ class StmtText(str):
                     return True
         return False
 
+    def _inverted(self, mode, tree):
+        """second chance: compare in if-normal form (a plain if/else may
+        have been inverted)"""
+        if self._canon is None:
+            self._canon = [canon_stmt(s) for s in self.stmts
+                           if any(isinstance(x, (ast.If, ast.IfExp))
+                                  for x in ast.walk(s))]
+        if not self._canon:
+            return False
+        if mode == "eval":
+            want = canon_stmt(tree.body)
+            for s in self._canon:
+                for n in ast.walk(s):
+                    if isinstance(n, ast.expr) and type(n) is type(want) and \
+                            unify(want, n, self.locals, {}) is not None:
+                        return True
+            return False
+        wants = [canon_stmt(w) for w in tree.body]
+        if len(wants) != 1:
+            return False
+        for top in self._canon:
+            for s in ast.walk(top):
+                if isinstance(s, ast.stmt) and unify(
+                        wants[0], s, self.locals, {}) is not None:
+                    return True
+        return False
+
     def __contains__(self, text):
         if str.__contains__(self, text):
             return True
@@ -816,6 +909,13 @@ class StmtText(str):
         mode, tree = self._parse(text)
         if tree is None:
             return False
+        if self._plain_contains(mode, tree):
+            return True
+        if any(isinstance(x, (ast.If, ast.IfExp)) for x in ast.walk(tree)):
+            return self._inverted(mode, tree)
+        return False
+
+    def _plain_contains(self, mode, tree):
         if mode == "eval":
             want = tree.body
             for s in self.stmts:
@@ -1068,3 +1168,60 @@ def inline_locals(fnode, expr, depth=6):
         if ast.dump(out) == before:
             break
     return out
+
+
+# ---------------------------------------------------------------------------
+# orientation-free access to alternatives (Alt tests are kept in positive
+# normal form by absint.canon_test)
+
+
+def _same_test(a, b):
+    return norm_test(a).replace(" ", "") == norm_test(b).replace(" ", "")
+
+
+def branch(alt, test_text, value=True):
+    """The branch of ``alt`` taken when ``test_text`` (written in any
+    polarity: 'not x', 'x is not None', ...) evaluates to ``value``; None if
+    the alternative does not decide on that test."""
+    if not isinstance(alt, A.Alt):
+        return None
+    ct, flip = A.canon_test(test_text)
+    if not _same_test(ct, alt.test):
+        return None
+    return alt.a if (value != flip) else alt.b
+
+
+def decides_on(alt, test_text):
+    return isinstance(alt, A.Alt) and \
+        _same_test(A.canon_test(test_text)[0], alt.test)
+
+
+def cond_holds(conds, test_text, value=True, contains=False):
+    """``conds`` as produced by absint.flatten (('if'|'else', test) pairs)
+    or as (test, bool) pairs: does the path assume that ``test_text``
+    evaluates to ``value``?  With contains=True the test only has to occur
+    inside a condition's text (after normalisation of the polarity of the
+    whole condition)."""
+    ct, flip = A.canon_test(test_text)
+    want = (value != flip)
+    for c in conds:
+        k, t = c[0], c[1]
+        if isinstance(t, bool):
+            k, t = t, k
+        truth = k if isinstance(k, bool) else (k == "if")
+        if k == "loop":
+            continue
+        ct2, flip2 = A.canon_test(t)
+        truth2 = (truth != flip2)
+        if _same_test(ct, ct2):
+            if truth2 == want:
+                return True
+            continue
+        # a conjunct of a compound condition that holds
+        if contains and truth2 and " or " not in ct2:
+            if want and ct.replace(" ", "") in ct2.replace(" ", ""):
+                return True
+            if value and flip and test_text.replace(" ", "") in \
+                    ct2.replace(" ", ""):
+                return True
+    return False
